@@ -889,3 +889,37 @@ def cases_for(prop, tier, seed):
     if prop == "C19":
         return CORPUS.get(prop, []) + [case(nocfg_adef(g), pick_syntax(g, (3, 3, 2, 2)), "nocfg") for _ in range(90 * k)]
     return _cases_for_base5(prop, tier, seed)
+
+
+def prof_c20(g, n):
+    out = []
+    for i in range(n):
+        adef = common_fragment_adef(g)
+        out.append(case(adef, SYNTAXES[i % 4], "cli"))
+    # rejected inputs, among them several unknown ref targets at once (formerly order-dependent)
+    for i in range(max(4, n // 4)):
+        g.reset_names()
+        objs = [{"kind": "register", "name": "Base", "address": "0", "size_bits": 8, "fields": []}]
+        for k in range(g.r.randint(2, 5)):
+            objs.append({"kind": "ref", "name": "R%d" % k, "target": g.pick(["Nope", "Missing", "Zed", "Alpha", "Qux"]) + str(k),
+                         "override": {"kind": g.pick(["register", "register", "command", "block"]), **({"address": str(k + 1)} if True else {})}})
+        for o in objs:
+            if o["kind"] == "ref" and o["override"]["kind"] == "block":
+                o["override"] = {"kind": "block", "address_offset": "9"}
+        out.append(case({"config": {"register_address_type": "u8", "command_address_type": "u8"}, "objects": objs}, SYNTAXES[i % 4], "cli"))
+    for c in prof_layout(g, max(4, n // 2)):
+        c["profile"] = "cli"
+        out.append(c)
+    return out
+
+
+_cases_for_base6 = cases_for
+
+
+def cases_for(prop, tier, seed):
+    thorough = tier == "thorough"
+    g = Gen(seed, stream=int(prop[1:]))
+    k = 10 if thorough else 1
+    if prop == "C20":
+        return CORPUS.get(prop, []) + prof_c20(g, 40 * k)
+    return _cases_for_base6(prop, tier, seed)
